@@ -41,6 +41,11 @@ func specStatus(a map[string]bool) int64 {
 }
 
 func runC16(p *Prog, r *Report) {
+	// R6: the shared standard error handler keeps no unsynchronised state (concurrent failures must not crash the proxy; shared with C09.R1)
+	if sh := p.Named("utils", "StdHandler"); sh != nil {
+		c09Races(p, r, "C16.R6", []*types.Named{sh})
+		r.Pass("C16.R6", "utils.StdHandler: analysed for unsynchronised state", "-", "conflicting accesses reachable from its methods were enumerated")
+	}
 	c16ErrorTable(p, r)
 	c16Wiring(p, r)
 	c16Paired(p, r)
@@ -498,6 +503,8 @@ func c16Paired(p *Prog, r *Report) {
 
 func mutantsC16() []Mutant {
 	return []Mutant{
+		{Name: "proxywriter-header-snapshot", File: "utils/netutils.go", Old: "func (p *ProxyWriter) Header() http.Header {\n\treturn p.w.Header()\n}", New: "func (p *ProxyWriter) Header() http.Header {\n\tif p.code != 0 {\n\t\treturn p.w.Header().Clone()\n\t}\n\treturn p.w.Header()\n}", Expect: "C16.R4"},
+		{Name: "proxywriter-flush-before-hijack", File: "utils/netutils.go", Old: "\tif hi, ok := p.w.(http.Hijacker); ok {\n\t\treturn hi.Hijack()", New: "\tif hi, ok := p.w.(http.Hijacker); ok {\n\t\tp.Flush()\n\t\treturn hi.Hijack()", Expect: "C16.R4"},
 		{Name: "deferred-url-read-late", File: "forward/middlewares.go", Old: "\tdefer s.stateListener(req.URL, StateDisconnected)\n", New: "\tdefer func() { s.stateListener(req.URL, StateDisconnected) }()\n", Expect: "C16.R3"},
 		{Name: "swap-502-504", File: "utils/handler.go", Old: "\t\t\tstatusCode = http.StatusGatewayTimeout\n\t\t} else {\n\t\t\tstatusCode = http.StatusBadGateway", New: "\t\t\tstatusCode = http.StatusBadGateway\n\t\t} else {\n\t\t\tstatusCode = http.StatusGatewayTimeout", Expect: "C16.R1"},
 		{Name: "drop-errorhandler", File: "forward/fwd.go", Old: "\t\tErrorHandler: utils.DefaultHandler.ServeHTTP,\n", New: "", More: []Edit{{"forward/fwd.go", "\t\"github.com/vulcand/oxy/v2/utils\"\n", ""}}, Expect: "C16.R2"},
